@@ -13,7 +13,7 @@ A == P("arg", "any")
 TH == P("this", "any")
 
 ZooNames == {"t", "tb", "fail", "h0", "h1", "h2", "h3", "h4", "m0", "m1", "m2", "m3", "va", "idf",
-             "fi", "fu", "fd", "fs", "fy", "fb", "fl", "fis", "msi"}
+             "fi", "fu", "fd", "fs", "fy", "fb", "fl", "fis", "msi", "h9", "c0", "c2", "mo"}
 Zoo(n) ==
   CASE n = "t"    -> H(<< P("arg", "int"), A >>, "id2")
     [] n = "tb"   -> H(<< P("arg", "int") >>, "odd1")
@@ -38,6 +38,10 @@ Zoo(n) ==
     [] n = "fl"   -> H(<< P("arg", "list") >>, "pack")
     [] n = "fis"  -> H(<< P("arg", "int"), P("arg", "str") >>, "pack")
     [] n = "msi"  -> H(<< P("this", "str"), P("arg", "int") >>, "pack")
+    [] n = "h9"   -> H(<< A, A, A, A, A, A, A, A, A >>, "pack")
+    [] n = "c0"   -> H(<< >>, "pack")
+    [] n = "c2"   -> H(<< A, P("arg", "int") >>, "pack")
+    [] n = "mo"   -> H(<< TH, P("arg", "int"), P("arg", "str") >>, "pack")
 
 \* Context::default() plus the zoo (a zoo name that coincides with a built-in replaces it)
 FullRegistry == [n \in BF!BuiltinNames \cup ZooNames |-> IF n \in ZooNames THEN Zoo(n) ELSE BF!DefaultRegistry[n]]
